@@ -12,12 +12,22 @@ fn guarded<F: FnOnce() -> String>(f: F) -> Option<String> {
 fn emit(x: &[u8], k: usize) {
     let mut kb = Vec::new();
     let mut km = Vec::new();
+    // every fourth case formats with the alternate / width flags: the output must still be the same literal / digits
+    let alt = k % 4 == 3;
     let (ty, d, lo, up) = if k % 3 != 2 {
         let v = mk_bytes(x, k / 3, &mut kb);
-        ("Bytes", guarded(|| format!("{:?}", v)), guarded(|| format!("{:x}", v)), guarded(|| format!("{:X}", v)))
+        if alt {
+            ("Bytes", guarded(|| format!("{:#?}", v)), guarded(|| format!("{:#x}", v)), guarded(|| format!("{:#X}", v)))
+        } else {
+            ("Bytes", guarded(|| format!("{:?}", v)), guarded(|| format!("{:x}", v)), guarded(|| format!("{:X}", v)))
+        }
     } else {
         let v = mk_mut(x, k / 3, &mut km);
-        ("BytesMut", guarded(|| format!("{:?}", v)), guarded(|| format!("{:x}", v)), guarded(|| format!("{:X}", v)))
+        if alt {
+            ("BytesMut", guarded(|| format!("{:#?}", v)), guarded(|| format!("{:#x}", v)), guarded(|| format!("{:#X}", v)))
+        } else {
+            ("BytesMut", guarded(|| format!("{:?}", v)), guarded(|| format!("{:x}", v)), guarded(|| format!("{:X}", v)))
+        }
     };
     match d {
         Some(d) => println!("d {} {} {}", ty, hex(x), hex(d.as_bytes())),
